@@ -17,4 +17,13 @@ PROPS = {
                  "sync.Mutex makes each guard method atomic (the model is sequentially consistent at method granularity)"],
         assumptions=["blocking Lock/RLock are modelled as 'try at every tick'; the 10 microsecond ticker and goroutine scheduling are runtime behaviour (C12_blocking_partial)"],
     ),
+    "C18": dict(
+        suites=[dict(name="codec", model="codec", spec="codec-spec", spec_on_impl=True, thorough_shards=8)],
+        predicate="round trip / prefix => error / no crash, hang or disproportionate allocation (Driver/CodecSpecD.lean over the encoders of Model/Frames.lean, Model/Chunk.lean)",
+        explanation="Theorems C18_* are about the hand-written codec models (Model/Frames.lean, Model/Chunk.lean); type codes and the chunk limit are regenerated from the source (C18_facts). The codec suite runs the real ReadStreamFrame/WriteStreamFrame, ReadPosMapFrom/WritePosMapTo and chunk.Reader/Writer against the model on systematic and random inputs, with three read-splitting modes and allocation measured per decode.",
+        trusted=["hand-written model of client.go / http/http.go / internal/chunk (tied by the codec correspondence suite, not regenerated)",
+                 "encoding/binary, io.ReadFull, io.CopyN, bytes.Buffer (Go standard library): a reader's split of the bytes is invisible to the decoders because they read only through io.ReadFull/binary.Read",
+                 "allocation is observed as runtime.MemStats.TotalAlloc around each decode (bound 256 KiB + 16 x input length); hostile length prefixes are decoded in a child process under ulimit -v"],
+        assumptions=["names are byte strings shorter than 2^32 (the writer casts len to uint32)"],
+    ),
 }
